@@ -24,22 +24,11 @@ impl Query for FilterAtom {
                         res
                     }
                 } else {
-                    let struct_check = |s: &T| {
-                        if let Some(arr) = s.as_array() {
-                            !arr.is_empty()
-                        } else if let Some(obj) = s.as_object() {
-                            !obj.is_empty()
-                        } else if let Some(str) = s.as_str() {
-                            !str.is_empty()
-                        } else {
-                            true
-                        }
-                    };
-
+                    // RFC 9535 2.3.5.2: an existence test is true when the query selects at
+                    // least one node, whatever the value of that node is
                     let struct_presented = match res.data {
-                        Data::Ref(v) => struct_check(v.inner),
-                        Data::Refs(e) if e.is_empty() => false,
-                        Data::Refs(elems) => elems.iter().map(|v| v.inner).all(struct_check),
+                        Data::Ref(_) => true,
+                        Data::Refs(e) => !e.is_empty(),
                         _ => false,
                     };
 
